@@ -1422,4 +1422,24 @@ def _witness_bingham(ctx):
         f"law, DKW threshold {rec[2]:.4f}")
 
 
+def _wstream(n, seed=12345):
+    r = gen.SplitMix64(seed)
+    return [r.u01() for _ in range(n)]
+
+
+# deterministic witnesses of the calibration caches (same behaviour as the open C02:<Mech>:stale-calibration findings, seen
+# from C03's side: after a valid assignment the noise is no longer unit(stream) x the scale of the CURRENT parameters)
+_STALE = {
+    "LaplaceBoundedDomain": ("bdom", {"eps": 1.0, "delta": 0.0, "sens": 0.2, "lo": 0.0, "hi": 1.0}, ["sens"], {"sens": 0.8}, 0.5,
+                             {"u": _wstream(124)}),
+    "LaplaceBoundedNoise": ("bnoise", {"eps": 1.0, "delta": 0.1, "sens": 1.0}, ["sens"], {"sens": 10.0}, 0.0, {"u": _wstream(124)}),
+    "Gaussian": ("gauss", {"eps": 0.5, "delta": 1e-5, "sens": 1.0}, ["sens"], {"sens": 10.0}, 0.0, {"normals": [0.3, -1.1]}),
+    "GaussianAnalytic": ("gaussA", {"eps": 0.5, "delta": 1e-5, "sens": 1.0}, ["sens"], {"sens": 10.0}, 0.0, {"normals": [0.3, -1.1]}),
+    "GaussianDiscrete": ("dgauss", {"eps": 1.0, "delta": 1e-3, "sens": 1}, ["eps"], {"eps": 0.05}, 0, {"u": _wstream(400)}),
+    "Snapping": ("snap", {"eps": 1.0, "sens": 1.0, "lo": 0.0, "hi": 10.0}, ["sens"], {"sens": 0.25}, 5.0,
+                 {"bits": [1, 1234567890123, 7]}),
+}
+
 WITNESSES = {"C03:bingham:law:acceptance-inverted": _witness_bingham}
+for _cls, (_k, _p1, _a, _p2, _x, _sc) in _STALE.items():
+    WITNESSES[f"C03:{_cls}:stale-scale-after-assignment"] = _stale_witness(_k, _p1, _a, _p2, _x, _sc)
